@@ -473,6 +473,44 @@ def concrete_read(modn, clsn, pname, layer, bg, value, alias=None):
     return True, detail
 
 
+# ---- S-DAC-GT: the calculation step re-checks its inputs against bounds of its own ------------------------------------------------------
+def run_sdac_second_layer(unit):
+    """EconomicsS_DAC_GT.Calculate starts with range_check(), a second copy of the bounds: every value the documented range admits (the
+    bounds included) must pass it, so that a value accepted by the reader is also used.  All float parameters symbolic at once."""
+    cfg = {'layer': 'sdac-gt-calculate'}
+    log = harness.UnitLog(cfg)
+    obj0, model0, mod = _make('geophires_x.EconomicsS_DAC_GT', 'EconomicsS_DAC_GT')
+    fl = [(k, p) for k, p in obj0.ParameterDict.items() if isinstance(p, P.floatParameter)]
+    decl = {k: (float(p.Min), float(p.Max)) for k, p in fl}
+    zv = {k: z3.Real(k) for k, _ in fl}
+
+    def concrete(inp, only=None):
+        obj, model, _ = _make('geophires_x.EconomicsS_DAC_GT', 'EconomicsS_DAC_GT')
+        for k, p in obj.ParameterDict.items():
+            if k in decl:
+                p.value = float(inp.get(k, p.value))
+        err, msg = obj.range_check()
+        return bool(err), {'range_check() says': msg, 'values': {k: obj.ParameterDict[k].value for k in decl}, 'documented ranges': decl}
+
+    def fn():
+        obj, model, _ = _make('geophires_x.EconomicsS_DAC_GT', 'EconomicsS_DAC_GT')
+        for k, p in obj.ParameterDict.items():
+            if k in decl:
+                p.value = core.sym(k, *decl[k])
+        return obj.range_check()
+    for pr in core.explore(fn, max_paths=2000):
+        log.path(pr)
+        if pr.error is not None:
+            raise pr.error
+        if pr.aborted:
+            continue
+        harness.reachable(log, pr.ctx, 1000)
+        err, msg = pr.value
+        harness.discharge(log, pr.ctx, 'S-DAC-GT: values inside the documented ranges (bounds included) pass the calculation step\'s own range check' + (f' [{msg[:60]}]' if err else ''),
+                          not err, zv, concrete, sample=not err)
+    yield log.result()
+
+
 # ---- unit layer: "v <unit>" through the real pint conversion -------------------------------------------------
 def convertible_units(prm):
     """catalogue units of the parameter's unit type that the reader converts (probed concretely with the value 1)."""
@@ -801,7 +839,7 @@ def run_entry_points(unit):
 
 
 def units(tier, seed):
-    us = [{'layer': 'hip-calculate'}, {'layer': 'client-params'}, {'layer': 'entry-point'}]
+    us = [{'layer': 'hip-calculate'}, {'layer': 'client-params'}, {'layer': 'entry-point'}, {'layer': 'sdac-gt-calculate'}]
     srcs = list(gx.SOURCE_CLASSES) + [('hip_ra_x.hip_ra_x', 'HIP_RA_X')]
     for modn, clsn in srcs:
         us.append({'layer': 'reader', 'module': modn, 'cls': clsn})
@@ -819,6 +857,8 @@ def run_unit(unit):
         yield from run_client_params(unit)
     elif unit['layer'] == 'hip-calculate':
         yield from run_hip_used(unit)
+    elif unit['layer'] == 'sdac-gt-calculate':
+        yield from run_sdac_second_layer(unit)
     elif unit['layer'] == 'units':
         yield from run_units_layer(unit)
     else:
